@@ -209,15 +209,22 @@ func matchGroup(routes []*Route, host, path string, o MatchOpts) (MatchResult, b
 	for _, r := range routes {
 		root.insert(r.Pat.Toks, r)
 	}
+	if path != "" && path[0] != '/' {
+		// "*" (server-wide OPTIONS) and other rootless targets: every pattern's path starts with '/', nothing matches,
+		// and nothing of such a target may be taken for a host label
+		return MatchResult{}, false
+	}
 	text := host + path
 	m := &matcher{hostLen: len(host), allowLeadSlash: o.AllowLeadingSlashCapture}
 	if r := m.walk(root, text, 0); r != nil {
 		return MatchResult{Route: r, Params: append([]Param(nil), m.params...), Backtracks: m.Backtracks, LeadSlash: m.usedLeadingSlash}, true
 	}
 	bt := m.Backtracks
-	if path == "/" || path == "" {
+	if path == "/" {
 		return MatchResult{Backtracks: bt}, false
 	}
+	// (the empty path of an absolute-form request target without a path is "a path other than '/'": adding the slash
+	// gives the root)
 	// slash-adjusted form
 	m = &matcher{hostLen: len(host), allowLeadSlash: o.AllowLeadingSlashCapture}
 	var adj string
